@@ -1,2 +1,70 @@
+(** C03: the HNF transformation matrix is unimodular and its first k rows are a Z-basis of the
+    left kernel {x : x * A = 0}.  All statements for ALL integer matrices with n, m >= 1. *)
+From Coq Require Import ZArith List.
 From RNT.Model Require Import Base Hnf.
-Theorem placeholder_c03 : True. Proof. exact I. Qed.
+From RNT.Refine Require Import MatZ HnfOps HnfSpec HnfMain HnfTerm HnfTotal HnfKernel.
+Import ListNotations.
+Open Scope Z_scope.
+
+(** [P] the kernel routines terminate without panic on rectangular input *)
+Theorem kernel_terminates : forall A n m,
+  shape n m A -> (1 <= n)%nat -> (1 <= m)%nat -> exists K, hnf_kernel A = Done K.
+Proof. exact hnf_kernel_total. Qed.
+
+Theorem hnf_with_ker_terminates : forall A n m,
+  shape n m A -> (1 <= n)%nat -> (1 <= m)%nat -> exists H K, hnf_with_ker A = Done (H, K).
+Proof. exact hnf_with_ker_total. Qed.
+
+(** [P] U is n x n, has a two-sided integer inverse (unimodular), U * A = [0_k ; H],
+    k = n - #rows H (and #rows H is the rank: C02.hnf_rows_independent + hnf_lattice). *)
+Theorem hnf_U_unimodular : forall A n m H U k,
+  shape n m A -> (1 <= n)%nat -> (1 <= m)%nat -> hnf_with_u A = Done (H, U, k) ->
+  shape n n U /\
+  (exists V, shape n n V /\ mmul n V U = idmat n /\ mmul n U V = idmat n) /\
+  mmul m U A = repeat (vzero m) k ++ H /\ (k + length H = n)%nat.
+Proof.
+  intros A n m H U k HS Hn Hm E.
+  destruct (hnf_with_u_correct A n m H U k HS Hn Hm E) as (_ & H1 & H2 & H3 & H4).
+  exact (conj H1 (conj H2 (conj H3 H4))).
+Qed.
+
+(** [P] kernel_annihilates: HNF::kernel returns exactly the first k rows of U, k = n - #rows H,
+    and each of them is annihilated by A. *)
+Theorem kernel_annihilates : forall A n m K,
+  shape n m A -> (1 <= n)%nat -> (1 <= m)%nat -> hnf_kernel A = Done K ->
+  exists H U k, hnf_with_u A = Done (H, U, k) /\ K = firstn k U /\
+    length K = k /\ (k + length H = n)%nat /\ wf n K /\
+    mmul m K A = repeat (vzero m) k.
+Proof. exact HnfMain.kernel_annihilates. Qed.
+
+(** [P] kernel_basis: the kernel rows are Z-linearly independent and generate every integer
+    solution of x * A = 0 (saturated basis of the left kernel). *)
+Theorem kernel_basis : forall A n m H U k,
+  shape n m A -> (1 <= n)%nat -> (1 <= m)%nat -> hnf_with_u A = Done (H, U, k) ->
+  (forall c, length c = k -> lincomb n c (firstn k U) = vzero n -> c = vzero k) /\
+  (forall x, length x = n -> lincomb m x A = vzero m -> In_rowspanZ n x (firstn k U)).
+Proof. exact HnfKernel.kernel_basis. Qed.
+
+(** [P] empty kernel when the rows of A are independent: if H has n rows then k = 0. *)
+Theorem kernel_empty_when_independent : forall A n m H U k,
+  shape n m A -> (1 <= n)%nat -> (1 <= m)%nat -> hnf_with_u A = Done (H, U, k) ->
+  length H = n -> firstn k U = [].
+Proof.
+  intros A n m H U k HS Hn Hm E HL.
+  destruct (hnf_with_u_correct A n m H U k HS Hn Hm E) as (_ & _ & _ & _ & Hc).
+  assert (k = 0%nat) by (rewrite HL in Hc; apply (Nat.add_cancel_r _ _ n); simpl; exact Hc).
+  subst k. reflexivity.
+Qed.
+
+Definition exA : mat := [[-2; -4; -6]; [-1; -2; -3]; [0; -3; -5]; [-3; -3; -4]].
+Example exA_shape : shape 4 3 exA.
+Proof. split; [reflexivity|repeat constructor]. Qed.
+Example exA_kernel : hnf_kernel exA = Done [[1; -2; 0; 0]; [0; -3; 1; 1]].
+Proof. vm_compute. reflexivity. Qed.
+Example exA_kernel_annihilated : mmul 3 [[1; -2; 0; 0]; [0; -3; 1; 1]] exA = [[0; 0; 0]; [0; 0; 0]].
+Proof. vm_compute. reflexivity. Qed.
+Example exA_solution : lincomb 3 [2; -7; 1; 1] exA = vzero 3
+                       /\ [2; -7; 1; 1] = lincomb 4 [2; 1] [[1; -2; 0; 0]; [0; -3; 1; 1]].
+Proof. vm_compute. auto. Qed.
+Example ex_independent : hnf_with_u [[2; 1]; [0; 3]] = Done ([[6; 0]; [2; 1]], [[3; -1]; [1; 0]], 0%nat).
+Proof. vm_compute. reflexivity. Qed.
